@@ -626,6 +626,11 @@ func ruleHeaderReachesEndOfPageTest(p *Prog, l *Ledger, tier string) {
 						run(s, b, env, seen)
 						return
 					}
+					if shortPacketTest(fn, last.Cond) {
+						// a packet shorter than the bytes the function decodes anyway is a header it cannot decode
+						run(b.Succs[1], b, env, seen)
+						return
+					}
 					for _, s := range b.Succs {
 						e2 := map[ssa.Value]pv{}
 						for k, v := range env {
@@ -958,4 +963,47 @@ func ruleCLIFatalConditions(p *Prog, l *Ledger, tier string) {
 		}
 	}
 	l.Min(rule, n, 8)
+}
+
+// shortPacketTest: cond is len(x) < c for a slice parameter x of fn and a constant c no larger than the number of
+// leading bytes of x that fn reads with constant indexes anyway (x[0] … x[c-1]).
+func shortPacketTest(fn *ssa.Function, cond ssa.Value) bool {
+	bo, ok := cond.(*ssa.BinOp)
+	if !ok {
+		return false
+	}
+	var lenV, cV ssa.Value
+	switch bo.Op {
+	case token.LSS:
+		lenV, cV = bo.X, bo.Y
+	case token.GTR:
+		lenV, cV = bo.Y, bo.X
+	default:
+		return false
+	}
+	c, ok := constInt(stripConv(cV))
+	if !ok {
+		return false
+	}
+	call, ok := stripConv(lenV).(*ssa.Call)
+	if !ok {
+		return false
+	}
+	bi, ok := call.Call.Value.(*ssa.Builtin)
+	if !ok || bi.Name() != "len" {
+		return false
+	}
+	par, ok := call.Call.Args[0].(*ssa.Parameter)
+	if !ok || par.Parent() != fn {
+		return false
+	}
+	max := int64(-1)
+	for _, r := range *par.Referrers() {
+		if ia, ok := r.(*ssa.IndexAddr); ok {
+			if k, ok := constInt(ia.Index); ok && k > max {
+				max = k
+			}
+		}
+	}
+	return c <= max+1
 }
